@@ -181,9 +181,12 @@ func c03r2(r *R) {
 		buffered     string
 		writeCallPfx string
 	}
+	// parameters are found by their type: the order of an unexported method's parameters is free to change
+	ct, ht := r.method(mpkg, "proxyConn", "tunnel"), r.method(mpkg, "proxyHandler", "tunnel")
+	hrw, hreq := paramOfType(r, ht, "net/http.ResponseWriter"), paramOfType(r, ht, "*net/http.Request")
 	specs := []spec{
-		{r.method(mpkg, "proxyConn", "tunnel"), "proxyConn.tunnel", "$3", "$0.conn", "$0.brw.Reader", "(*martian.proxyConn).writeResponse($0, $2)"},
-		{r.method(mpkg, "proxyHandler", "tunnel"), "proxyHandler.tunnel", "$5", "(*net/http.ResponseController).Hijack(net/http.NewResponseController($2))#0", "(*net/http.ResponseController).Hijack(net/http.NewResponseController($2))#1.Reader", "(*martian.proxyConn).writeResponse("},
+		{ct, "proxyConn.tunnel", paramOfType(r, ct, "io.ReadWriteCloser"), "$0.conn", "$0.brw.Reader", "(*martian.proxyConn).writeResponse($0, " + paramOfType(r, ct, "*net/http.Response") + ")"},
+		{ht, "proxyHandler.tunnel", paramOfType(r, ht, "io.ReadWriteCloser"), "(*net/http.ResponseController).Hijack(net/http.NewResponseController(" + hrw + "))#0", "(*net/http.ResponseController).Hijack(net/http.NewResponseController(" + hrw + "))#1.Reader", "(*martian.proxyConn).writeResponse("},
 	}
 	for _, s := range specs {
 		ps, _ := enumPaths(s.fn, 4096, 1)
@@ -196,7 +199,7 @@ func c03r2(r *R) {
 			}
 			di := p.eventIndex(0, "call", prefix("martian.drainBuffer("))
 			wi := p.eventIndex(0, "call", prefix(s.writeCallPfx))
-			if s.name == "proxyHandler.tunnel" && !p.holds("($3.ProtoMajor == 1)") {
+			if s.name == "proxyHandler.tunnel" && !p.holds("("+hreq+".ProtoMajor == 1)") {
 				continue // HTTP/2 stream: no hijacked buffer
 			}
 			n++
@@ -352,7 +355,9 @@ func c03r4(r *R) {
 			}
 			if ti >= 0 {
 				nT++
-				if !strings.HasSuffix(p.Events[ti].Desc, ", "+resP+".Body.(io.ReadWriteCloser))") {
+				// the stream argument, wherever it stands in tunnel's parameter list
+				stream := resP + ".Body.(io.ReadWriteCloser)"
+				if !strings.Contains(p.Events[ti].Desc, ", "+stream+")") && !strings.Contains(p.Events[ti].Desc, ", "+stream+", ") {
 					why = append(why, "tunnel stream is "+p.Events[ti].Desc)
 				}
 			} else if p.eventIndex(0, "call", prefix("(*martian.Proxy).traceWroteResponse(")) < 0 {
@@ -361,4 +366,21 @@ func c03r4(r *R) {
 		}
 		r.check(nT > 0 && len(why) == 0, recv+".handleUpgradeResponse", fn.Pos(), "tunnel over res.Body as ReadWriteCloser; otherwise reported and closed", strings.Join(dedupStrings(why), "; "))
 	}
+}
+
+// paramOfType names the single parameter of fn that has the given type ("$k").
+func paramOfType(r *R, fn *ssa.Function, typ string) string {
+	out := ""
+	for i, p := range fn.Params {
+		if typeStr(p.Type()) == typ {
+			if out != "" {
+				r.missing("a single %s parameter in %s", typ, fname(fn))
+			}
+			out = fmt.Sprintf("$%d", i)
+		}
+	}
+	if out == "" {
+		r.missing("a %s parameter in %s", typ, fname(fn))
+	}
+	return out
 }
